@@ -97,6 +97,10 @@ type Exec struct {
 	outputs   []outputEvent
 	exits     []outputEvent
 	dynCalls  []dynCallInfo
+	pendingInv []pendingInv
+	prebound map[ssa.Value]bool
+	loadedFrom map[ssa.Value]*lval // values loaded from a path inside a local cell
+	goalSk []Term
 }
 
 func (e *Exec) root() *Exec {
@@ -237,6 +241,20 @@ func (e *Exec) asTerm(x val, t types.Type) Term {
 	}
 	if x.cell != nil {
 		e.root().escapes[x.cell] = true
+		return e.cellGet(x.cell)
+	}
+	if x.t == "" && x.fn != nil {
+		return e.fnConst(x.fn)
+	}
+	return x.t
+}
+
+// peekTerm: like asTerm but without recording an escape (used by specifications only).
+func (e *Exec) peekTerm(x val, t types.Type) Term {
+	if x.lv != nil {
+		return "(ptr_" + e.g.sortOf(t) + " " + e.load(x.lv) + ")"
+	}
+	if x.cell != nil {
 		return e.cellGet(x.cell)
 	}
 	if x.t == "" && x.fn != nil {
@@ -453,6 +471,11 @@ func (e *Exec) run(params []Term) {
 		e.unsupported("no body: " + fn.String())
 		return
 	}
+	if e.parent == nil && !e.noObl {
+		for i := 0; i < 2; i++ {
+			e.goalSk = append(e.goalSk, e.havoc("gsk", "Int", false))
+		}
+	}
 	e.loops = e.w.loopsOf(fn)
 	if e.loops.irreducible {
 		e.unsupported("irreducible control flow in " + fn.String())
@@ -480,6 +503,9 @@ func (e *Exec) run(params []Term) {
 		e.vals[fv] = val{lv: &lval{root: t, rootT: pt.Elem()}}
 	}
 	e.runBlocks(e.loops.rpo, nil)
+	if e.g.unsupported == "" {
+		e.finishInvariants()
+	}
 }
 
 // runBlocks translates blocks (in reverse post-order, back edges ignored).
@@ -630,6 +656,9 @@ func (e *Exec) defVal(v ssa.Value, term Term) {
 }
 
 func (e *Exec) instr(b *ssa.BasicBlock, in ssa.Instruction, preds []*ssa.BasicBlock) {
+	if v, ok := in.(ssa.Value); ok && e.prebound[v] {
+		return
+	}
 	switch x := in.(type) {
 	case *ssa.DebugRef:
 	case *ssa.Phi:
@@ -707,6 +736,10 @@ func (e *Exec) instr(b *ssa.BasicBlock, in ssa.Instruction, preds []*ssa.BasicBl
 			if base.cell != nil {
 				sl = e.cellGet(base.cell)
 				lv = &lval{cell: base.cell, path: []pathElem{{field: -1, index: idx}}}
+			} else if from := e.root().loadedFrom[x.X]; from != nil {
+				// slice held in a field of a local object: element writes update that object
+				sl = base.t
+				lv = &lval{cell: from.cell, path: append(append([]pathElem{}, from.path...), pathElem{field: -1, index: idx})}
 			} else {
 				sl = base.t
 				lv = &lval{root: sl, rootT: x.X.Type(), path: []pathElem{{field: -1, index: idx}}}
@@ -853,6 +886,13 @@ func (e *Exec) unop(x *ssa.UnOp) {
 				return
 			}
 			e.defVal(x, t)
+			if a.lv.cell != nil {
+				r := e.root()
+				if r.loadedFrom == nil {
+					r.loadedFrom = map[ssa.Value]*lval{}
+				}
+				r.loadedFrom[x] = a.lv
+			}
 			return
 		}
 		// load through pointer value
